@@ -308,6 +308,17 @@ fn cmd_rolling(args: &[String]) {
         }
         rolling::run(&mut sink, &data, &ok);
     }
+    // (3b) always: the largest windows slid without a break right up to (and past) a normalisation point - where the lazily
+    //      reduced sums are largest (the seeded runs above meet this combination only by luck)
+    for (k, &wl) in [65536usize, 65535, 56000, 32768].iter().enumerate() {
+        for class in [k % 6, (k + 3) % 6] {
+            let sl = 5003;
+            let data = rolling::gen_data(&mut rng, class, wl + sl + 8);
+            let mut ops: Vec<(char, usize, usize)> = vec![('n', 0, wl)];
+            for _ in 0..sl { ops.push(('r', 0, 0)); }
+            rolling::run(&mut sink, &data, &ops);
+        }
+    }
     // (4) marathons: tens of millions of consecutive slides (what a delta scan does over tens of MiB of new data)
     let mseed: u64 = rng.gen();
     rolling::marathon(&mut sink, 65536, if thorough { 70_000_000 } else { 30_000_000 }, 10_000_000, &|_| 0xff);
@@ -717,7 +728,7 @@ fn cmd_delta_large(args: &[String]) {
             } }
         }
         // > 5000 (and > 10000) consecutive slides before the first match
-        for &pre in &[5003usize, 10007] {
+        for &pre in &[4700usize, 5003, 9800, 10007] {
             let base = deltal::distinct_blocks(&mut rng, 3, r, 0);
             let mut src: Vec<u8> = (0..pre).map(|_| rng.gen()).collect();
             src.extend_from_slice(&base);
@@ -808,6 +819,17 @@ fn cmd_delta_large(args: &[String]) {
         let off = len / 2 + 13;
         src.splice(off..off + 10, [1u8; 25]);
         jobs.push((format!("large len={len}"), base, src, r, true, false, 25));
+    }
+    // several MiB whose matches all sit OFF the source's block grid (a short insert near the start, a short delete): whatever
+    // the engine does in pieces (segments, buffers, threads) must not cost a block at each seam
+    for &(len, r, k) in &[(3 * 1_048_576 + 1000usize, 8192usize, 100usize), (2 * 1_048_576 + 77, 2048, 3)] {
+        let base = deltal::distinct_blocks(&mut rng, len / r + 1, r, 0);
+        let mut ins = base.clone();
+        ins.splice(500..500, (0..k).map(|i| (i * 7 + 1) as u8));
+        jobs.push((format!("multi-MiB insert k={k} near the start"), base.clone(), ins, r, true, false, k as i64));
+        let mut del = base.clone();
+        del.drain(700..700 + k);
+        jobs.push((format!("multi-MiB delete k={k} near the start"), base, del, r, true, false, k as i64));
     }
     let mut w = NdjsonWriter::create(&format!("{prefix}0.ndjson"));
     let mut files = vec![];
